@@ -265,3 +265,64 @@ def share_expr(rng, depth, atoms=None):
         return f"({ta}){sp(op)}({tb})", (SHARE_OPS[op], a, b)
 
     return go(depth)
+
+
+# ---------------------------------------------------------------- "twin" expressions (equality / hashing of CAS expressions)
+TWIN_PAIRS = [(-1, -2), (-2, -1), (1, 2), (2, 3), (0, 1), (-1, 1), (2, -2), (-3, -2), (1, -1), (3, -1)]
+
+
+def twin_tree(rng, D):
+    """two compound terms that are IDENTICAL except for one integer leaf (n in one, m in the other), combined as siblings of a
+    sum / product / quotient (possibly with coefficients, possibly under a function): like-term and like-base collection must keep
+    them apart.  Pairs include (-1, -2), whose CPython hashes collide."""
+    HOLE = ("hole",)
+
+    def var():
+        return ("x", rng.randrange(D))
+
+    def ctx_small():
+        k = rng.randrange(9)
+        a, b = var(), var()
+        if k == 0:
+            return (POW, a, HOLE)                       # x^n
+        if k == 1:
+            return (DIV, a, (POW, b, HOLE))             # a / x^n
+        if k == 2:
+            return (MUL, HOLE, a)                       # n*x
+        if k == 3:
+            return (SUB, a, (MUL, HOLE, b))             # a - n*b
+        if k == 4:
+            return (ADD, a, HOLE)                       # a + n
+        if k == 5:
+            return (SIN, (SUB, a, (MUL, HOLE, b)))      # sin(a - n*b)
+        if k == 6:
+            return (MUL, a, (POW, (ADD, a, b), HOLE))   # a*(a+b)^n
+        if k == 7:
+            return (DIV, (ADD, a, HOLE), b)             # (a+n)/b
+        return (POW, (MUL, a, b), HOLE)                 # (a*b)^n
+
+    def fill(t, n):
+        if t == HOLE:
+            return ("i", n)
+        if t[0] in ("x", "i", "c"):
+            return t
+        return (t[0],) + tuple(fill(c, n) for c in t[1:])
+    T = ctx_small()
+    if rng.random() < 0.3:
+        T = rng.choice([lambda u: (SIN, u), lambda u: (MUL, var(), u), lambda u: (DIV, var(), u), lambda u: (COS, u)])(T)
+    n, m = rng.choice(TWIN_PAIRS)
+    t1, t2 = fill(T, n), fill(T, m)
+    k = rng.randrange(7)
+    if k == 0:
+        return (ADD, t1, t2)
+    if k == 1:
+        return (SUB, t1, t2)
+    if k == 2:
+        return (MUL, t1, t2)
+    if k == 3:
+        return (DIV, t1, t2)
+    if k == 4:
+        return (ADD, (MUL, var(), t1), (MUL, var(), t2))
+    if k == 5:
+        return (ADD, (ADD, t1, var()), t2)
+    return (SUB, (MUL, ("i", rng.randrange(2, 4)), t1), t2)
